@@ -34,8 +34,10 @@ func (P *projPoint) getXY() (x, y *mod.Int) {
 }
 
 func (P *projPoint) String() string {
-	P.normalize()
-	return P.c.pointString(&P.X, &P.Y)
+	// normalize a copy: read-only methods must not write the (possibly shared) receiver
+	q := P.Clone().(*projPoint) //nolint:errcheck // Clone returns the same type
+	q.normalize()
+	return P.c.pointString(&q.X, &q.Y)
 }
 
 func (P *projPoint) MarshalSize() int {
@@ -43,8 +45,10 @@ func (P *projPoint) MarshalSize() int {
 }
 
 func (P *projPoint) MarshalBinary() ([]byte, error) {
-	P.normalize()
-	return P.c.encodePoint(&P.X, &P.Y), nil
+	// normalize a copy: read-only methods must not write the (possibly shared) receiver
+	q := P.Clone().(*projPoint) //nolint:errcheck // Clone returns the same type
+	q.normalize()
+	return P.c.encodePoint(&q.X, &q.Y), nil
 }
 
 func (P *projPoint) UnmarshalBinary(b []byte) error {
@@ -125,8 +129,9 @@ func (P *projPoint) Pick(rand cipher.Stream) kyber.Point {
 
 // Extract embedded data from a point group element
 func (P *projPoint) Data() ([]byte, error) {
-	P.normalize()
-	return P.c.data(&P.X, &P.Y)
+	q := P.Clone().(*projPoint) //nolint:errcheck // Clone returns the same type
+	q.normalize()
+	return P.c.data(&q.X, &q.Y)
 }
 
 // Add two points using optimized projective coordinate addition formulas.
